@@ -289,4 +289,76 @@ class C18Batch(C18):
         return []
 
 
-SUITES = [C18(), C18Batch()]
+class C18Memory(C18):
+    """The same histories judged against the wrapper composed with C01's Memory store model
+    (coq/Auditable/OverMemory.v): every store access of auditable.py goes through the Memory
+    model's own add / remove / triples.  Every operation names its graph (the context-less
+    remove goes through ConjunctiveGraph.quads and stays with the suite `auditable`)."""
+    name = "auditable_memory"
+    imports = "From RV Require Import Auditable.OverMemory."
+    case_ty = "mcase"
+    obs_ty = "list qset"
+    model = "mm_obs"
+    oeq = "obs_eqb"
+    spec = "mspec_ok"
+    corr = "AuditableStore.add/remove/commit/rollback over rdflib.plugins.stores.memory.Memory (add, remove, triples)"
+    quick_n = 400
+    thorough_n = 12000
+
+    def gen(self, rng, i):
+        while True:
+            case = super().gen(rng, i)
+            if case["store"] == "memory":
+                break
+        cids = sorted({o[3] for o in case["ops"] if o[0] in ("add", "rem") and o[3] is not None}) or [1]
+        for o in case["ops"]:
+            if o[0] == "rem" and o[3] is None:
+                o[3] = rng.choice(cids)
+                o[4] = rng.choice(["graph", "cg"])
+        return case
+
+    def coq_case(self, case):
+        ops = []
+        for op in case["ops"]:
+            w = cbool(op[1])
+            if op[0] == "add":
+                ops.append(f"CAdd {w} {c_triple(op[2])} {cN(op[3])}")
+            elif op[0] == "rem":
+                ops.append(f"CRemove {w} {c_pat(op[2])} {cN(op[3])}")
+            elif op[0] == "commit":
+                ops.append(f"CCommit {w}")
+            else:
+                ops.append(f"CRollback {w}")
+        return "{| m_init := " + c_qset(case["init"]) + "; m_ops := " + clist(ops) + " |}"
+
+    def sweep(self):
+        for case in super().sweep():
+            if all(not (o[0] == "rem" and o[3] is None) for o in case["ops"]):
+                yield case
+
+TRUSTED = [
+    "Coq 8.16.1 kernel incl. vm_compute (no native_compute); every theorem of coq/Props/C18.v is Closed under the global context",
+    "hand-written models coq/Auditable/Model.v, Batch.v (auditable.py over the specification-level quad set) and "
+    "OverStore.v/OverMemory.v (auditable.py over C01's Memory model): modelled, not verified - tied to the code by the suites below",
+    "coq/Store/Model.v (C01's model of memory.py) is reused; its three laws mem_add_ok / mem_remove_ok / mem_triples_exact are "
+    "C01's theorems, its faithfulness is C01's correspondence suite plus the suite auditable_memory here",
+    "harness/c18.py: generator, the drivers Graph(AuditableStore(..)) / ConjunctiveGraph(store=AuditableStore(..)) / addN, the reading of "
+    "the INNER store's content through ConjunctiveGraph.quads after every operation, harness/terms.py term numbering, printing of cases "
+    "as Gallina literals (harness/core.py)",
+]
+ASSUMPTIONS = [
+    "the two-wrapper statement covers a history up to the first operation that changes a quad the other wrapper changed in its still-open "
+    "transaction (the property's disjointness hypothesis, at quad level)",
+    "graph identifiers are non-empty strings (auditable.py tests `if ctxId:`); thread interleavings inside one call are not modelled: "
+    "operations of the two wrappers interleave at call granularity",
+    "OverStore.v: every operation names its graph; the context-less remove (ConjunctiveGraph.quads over all graphs) is modelled only "
+    "over the quad set (Model.v)",
+]
+RULE = ("histories of 2-13 operations over 2-5 triples x 1-3 graph names (IRI- and bnode-named with equal strings, the front end's default "
+        "graph), 35% of (triple, graph) pairs present initially, adds/removes of present and absent triples, wildcard removes with and "
+        "without graph, commits/rollbacks through store and front end, 30% two-wrapper histories, bulk adds (suite auditable_batch), the "
+        "same histories against the Memory-composed model (suite auditable_memory); distinct by full case content; non-trivial = contains "
+        "a rollback and at least one add or remove")
+
+
+SUITES = [C18(), C18Batch(), C18Memory()]
